@@ -181,7 +181,11 @@ func observePartial(e *emitter, pi *partialInst, rf *refForest, dead []u.Hash, r
 }
 
 func genC06(cfg runCfg, e *emitter, rng *rand.Rand) {
-	nHist := tierN(cfg, 200, 4000)
+	runUndoHistories(cfg, e, rng, tierN(cfg, 200, 4000))
+}
+
+// runUndoHistories: n blocks, undo k newest-first with full observation after each undo, redo.
+func runUndoHistories(cfg runCfg, e *emitter, rng *rand.Rand, nHist int) {
 	for hI := 0; hI < nHist; hI++ {
 		e.line("CASE undo%d", hI)
 		e.line("RESET")
@@ -303,7 +307,13 @@ func genC06(cfg runCfg, e *emitter, rng *rand.Rand) {
 						return
 					}
 					guarded(e, "Undo."+label, func() {
-						if err := p.Undo(uint64(len(rec.adds)), rec.proof, rec.dels, rec.prevRoots); err != nil {
+						proof := rec.proof
+						if mp, ok := p.(*u.MapPollard); ok && mp.Full && hI%2 == 1 {
+							// a full forest can rebuild the proof hashes itself: targets only
+							proof = u.Proof{Targets: append([]uint64{}, rec.proof.Targets...)}
+							e.count("undo_targets_only")
+						}
+						if err := p.Undo(uint64(len(rec.adds)), proof, rec.dels, rec.prevRoots); err != nil {
 							e.hfail("Undo."+label, "depth %d: %v", i, err)
 							deadImpl[label] = true
 						}
